@@ -219,9 +219,13 @@ class _TextCueParser:
     lines = token.value.split("\n")
 
     for i, line in enumerate(lines):
-      if i > 0:
-        self.parent.push_child(model.Br(self.parent.get_doc()))
       span = self._make_span(self.parent)
+      if i > 0:
+        if isinstance(self.parent, (model.Ruby, model.Rt)):
+          # ruby elements can contain only span elements, so the line break goes inside the span
+          span.push_child(model.Br(self.parent.get_doc()))
+        else:
+          self.parent.push_child(model.Br(self.parent.get_doc()))
       span.push_child(model.Text(self.parent.get_doc(), line))
       self._push_span(span)
 
